@@ -371,9 +371,14 @@ fn estimated_qlpc(
     let qlpc = lpc::quantize_parameters(&lpc_coefs[0..lpc_order], config.qlpc.quant_precision);
     let residual = reuse!(QLPC_ERROR_BUFFER, |errors: &mut Vec<i32>| {
         errors.resize(signal.len(), 0i32);
-        lpc::compute_error(&qlpc, signal, errors);
-        encode_residual(&config.prc, errors, qlpc.order())
+        lpc::compute_error(&qlpc, signal, errors)
+            .then(|| encode_residual(&config.prc, errors, qlpc.order()))
     });
+    let Some(residual) = residual else {
+        // The prediction error does not fit in a residual (32 bits); another
+        // subframe type must be used.
+        return Verbatim::from_samples(signal, bits_per_sample).into();
+    };
     Lpc::from_parts(
         heapless::Vec::from_slice(&signal[0..qlpc.order()])
             .expect("LPC order exceeded the maximum"),
